@@ -204,10 +204,7 @@ func init() { True, False = Bool(true), Bool(false) }
 
 func Var(name string, s Sort) *Term { return intern(&Term{Op: "var", Name: name, Sort: s}) }
 
-var (
-	freshCount = map[string]int{}
-	varOrder   []*Term
-)
+var varOrder []*Term
 
 // smtName makes a name safe as an SMT-LIB simple symbol.
 func smtName(s string) string {
@@ -223,15 +220,19 @@ func smtName(s string) string {
 	return sb.String()
 }
 
-// Fresh creates the k-th variable of the given base name: "<name>!<k>".
-func Fresh(name string, s Sort) *Term {
-	name = smtName(name)
-	k := freshCount[name]
-	freshCount[name] = k + 1
-	t := Var(fmt.Sprintf("%s!%d", name, k), s)
-	varOrder = append(varOrder, t)
+// Fresh creates the k-th variable of the given base name on a path: "<name>!<k>". The counter is
+// per path (kept in the State), so the k-th request for a name on any path is the same variable,
+// which is what lets a model be replayed natively by call order.
+func freshVar(name string, k int, s Sort) *Term {
+	t := Var(fmt.Sprintf("%s!%d", smtName(name), k), s)
+	if !varSeen[t.ID] {
+		varSeen[t.ID] = true
+		varOrder = append(varOrder, t)
+	}
 	return t
 }
+
+var varSeen = map[int]bool{}
 
 // UF applies an uninterpreted function (declared on first use in each solver).
 func UF(name string, s Sort, args ...*Term) *Term {
